@@ -10,10 +10,17 @@ Each (type, data) is pushed through four real paths:
   ref    ARSCResStringPoolRef(<8 bytes Res_value>).format_value()
   table  ARSCParser.get_resource_dimen / get_resource_color on an entry stub (dimension / colour types)
   axml   the attribute value of AXMLPrinter(<document written by gen/axmlgen.py>) (16 attributes per document)
+Histories: the formatting functions are module-level code that may keep state, so every judged case is a HISTORY
+(earlier calls, judged call) executed in one process that was pristine before: each shard runs in a fork of a pristine
+process (mc/fresh.py) and, in addition to the product above (history = the shard's own call order), every ordered pair
+(type A, then type B) over 12 type codes is run for the SAME data word (64 words) as fv,fv / ref,ref / two attributes of
+one document / two documents.  A violation is re-run in pristine forks (judged call alone, then its recorded history,
+then the shard prefix) and stored with the shortest history that reproduces it; replay() executes that history.
 Oracle: ref/resval.py (AOSP TypedValue semantics), compared numerically (see there).
 Not judged (recorded only): unit codes outside Android's tables, TYPE_NULL, dynamic and unassigned type codes.
 """
 import io
+import os
 import struct
 
 from mc.core import Acc
@@ -22,7 +29,9 @@ PROPERTY = "C27"
 LEVEL = "exploration"
 RULE = ("full product type code 0x00..0x1f x (mantissa set x radix 0..3 x unit 0..15 + 32-bit boundary set), each through "
         "format_value, ARSCResStringPoolRef.format_value, get_resource_dimen/color and an AXML attribute; non-trivial = "
-        "(type, data) whose meaning Android defines and data != 0; distinct by (type, data)")
+        "(type, data) whose meaning Android defines and data != 0; distinct by (type, data, path, history kind); plus every "
+        "ordered pair of 12 type codes on the same data word (64 words) as an explicit two-call history; every shard starts "
+        "in a pristine process")
 ASSUMPTIONS = [
     "complex unit codes >= 6 (dimension) / >= 2 (fraction), TYPE_NULL, dynamic reference/attribute and unassigned type "
     "codes have no meaning fixed by the property: only the observed behaviour is counted",
@@ -37,7 +46,9 @@ MANIFEST = {
     "text": "Every type code 0x00-0x1f is combined with every mantissa/radix/unit combination of a boundary mantissa set "
             "and a 32-bit boundary set; each pair is formatted by format_value, by ARSCResStringPoolRef.format_value, by the "
             "table helpers and as an attribute of a generated binary XML document, and compared numerically with an "
-            "independent implementation of Android's complexToFloat/coerceToString. Complete for the stated product.",
+            "independent implementation of Android's complexToFloat/coerceToString. Every ordered pair of type codes is also "
+            "applied to the same data word in one process (explicit call histories), each shard starting from a pristine "
+            "process image. Complete for the stated product.",
     "note": "Trusted: ref/resval.py (80 lines) and gen/axmlgen.py (validated byte-exact on 1005 shipped aapt files). "
             "Values outside Android's unit/type tables are counted, not judged.",
 }
@@ -68,22 +79,30 @@ def space(ctx):
     m = mant_set(False)
     return {"type_codes": "0x00..0x1f (32)", "mantissas": len(m), "mantissas_complex_types": len(mant_set(ctx.thorough)), "radix": 4, "unit": 16, "boundary_data": len(BOUND),
             "data_per_type": len(m) * 64 + len(BOUND), "paths": ["fv", "ref", "table", "axml"],
+            "histories": {"ordered_type_pairs": "%d x %d over %s" % (len(HIST_TYPES), len(HIST_TYPES), ["0x%02x" % t for t in HIST_TYPES]),
+                          "data_words": len(HIST_DATA), "forms": ["fv,fv", "ref,ref", "two attributes of one document",
+                                                                  "two documents"],
+                          "isolation": "every shard runs in a fork of a pristine process; its call order is its history"},
             "tolerance": {"rel": 1e-6, "abs": 6e-7}}
 
 
 def shards(ctx):
     s = []
     for t in TYPES:
-        for r in range(4):
-            s.append((t, "complex", r))
-        s.append((t, "bound", 0))
+        if t in (0x05, 0x06):
+            s += [(t, "complex", r) for r in range(4)] + [(t, "bound", 0)]
+        else:
+            s.append((t, "all", 0))
+    s += [("hist", a) for a in HIST_TYPES]
     return s
 
 
 def _data(ctx, shard):
-    t, kind, r = shard
+    t, kind, r = shard[:3]
     if kind == "bound":
         return list(BOUND)
+    if kind == "all":
+        return [((m & 0xFFFFFF) << 8) | (r << 4) | u for r in range(4) for m in mant_set(False) for u in range(16)] + list(BOUND)
     wide = ctx.thorough and t in (0x05, 0x06)       # the wide mantissa set only where the mantissa has a meaning
     return [((m & 0xFFFFFF) << 8) | (r << 4) | u for m in mant_set(wide) for u in range(16)]
 
@@ -165,69 +184,202 @@ def path_axml(ax, t, datas):
         return [e] * len(datas)
 
 
-def judge(acc, t, d, texts):
-    """texts: {path: str | Exception | None(not applicable)}.  Shared by run_shard and replay."""
+def do_call(ax, call):
+    """Execute one call descriptor against the real code: ["fv"|"ref"|"table", t, d] or ["axml", [[t, d], ...], i]."""
+    kind = call[0]
+    if kind == "axml":
+        return path_axml_items(ax, call[1])[call[2]]
+    return {"fv": path_fv, "ref": path_ref, "table": path_table}[kind](ax, call[1], call[2])
+
+
+def target(call):
+    if call[0] == "axml":
+        t, d = call[1][call[2]]
+        return t, d, "axml"
+    return call[1], call[2], call[0]
+
+
+def path_axml_items(ax, items):
+    """One document whose single element carries attribute k of type/data items[k] (in this order) -> texts."""
+    from gen import axmlgen
+    attrs = []
+    for k, (t, d) in enumerate(items):
+        a = {"ns": None, "name": "a%d" % k, "t": t, "d": d}
+        if t == axmlgen.TYPE_STRING:
+            a["s"] = "S%d" % d
+        attrs.append(a)
+    doc = {"utf8": False, "resmap": False, "root": {"ns": None, "name": "v", "decl": [], "attrs": attrs, "kids": []}}
+    try:
+        root = ax.AXMLPrinter(axmlgen.write(doc)).get_xml_obj()
+        return [root.get("a%d" % k) for k in range(len(items))]
+    except Exception as e:      # noqa
+        return [e] * len(items)
+
+
+def judge_call(acc, call, x, history=None, prefix=None, hkey=None, fv_bad=False, alone=None):
+    """Judge the result x of `call` (the last element of `history`).  Shared by the shards and replay.
+    Returns True if it violated."""
     from ref import resval
+    t, d, p = target(call)
     feat = resval.feature(t, d)
+    if x is None:
+        return False
     if not resval.judged(t, d):
-        for p, x in texts.items():
-            if x is not None:
-                acc.count("unjudged:%s:%s" % (feat.split(":")[-1] if ":" in feat else "type",
-                                              type(x).__name__ if isinstance(x, Exception) else "returned"))
+        acc.count("unjudged:%s:%s" % (feat.split(":")[-1] if ":" in feat else "type",
+                                      type(x).__name__ if isinstance(x, Exception) else "returned"))
         acc.case(outcome=("unjudged", feat))
-        return
-    fv_bad = None
-    for p in ("fv", "ref", "table", "axml"):
-        x = texts.get(p)
-        if x is None:
-            continue
-        string = ("S%d" % d) if t == resval.TYPE_STRING else None
-        if isinstance(x, Exception):
-            why = "raised %s: %s" % (type(x).__name__, x)
-        else:
-            why = resval.matches(t, d, x, string)
-        acc.case(nontrivial=(t, d, p) if d else None, outcome=(feat, p, why is None))
-        if why is not None:
-            if p == "fv":
-                fv_bad = why
-            key = feat if (p == "fv" or fv_bad) else "%s:%s" % (p, feat)
-            acc.violation(key, {"t": t, "d": d},
-                          "%s: type 0x%02x data 0x%08x -> %r; Android's meaning is %s (%s)"
-                          % (p, t, d, x if not isinstance(x, Exception) else why, resval.canonical(t, d, string), why))
+        return False
+    string = ("S%d" % d) if t == resval.TYPE_STRING else None
+    if isinstance(x, Exception):
+        why = "raised %s: %s" % (type(x).__name__, x)
+    else:
+        why = resval.matches(t, d, x, string)
+    acc.case(nontrivial=(t, d, p, hkey) if d else None, outcome=(feat, p, hkey, why is None))
+    if why is None:
+        return False
+    key = feat if (p == "fv" or fv_bad) else "%s:%s" % (p, feat)
+    w = {"history": list(history) if history else [call]}
+    if hkey:
+        w["_hkey"] = hkey
+    if prefix:
+        w["_prefix"] = prefix
+        w["_pkey"] = "%s:history-dependent" % resval.typename(t)
+    if alone:
+        w["_alone"] = alone
+    acc.violation(key, w, "%s: type 0x%02x data 0x%08x -> %r; Android's meaning is %s (%s)"
+                  % (p, t, d, x if not isinstance(x, Exception) else why, resval.canonical(t, d, string), why))
+    return True
 
 
-def run_shard(ctx, shard):
-    from androguard.core import axml as ax
+# history dimension: the same data word under type A, then under type B, in one process
+HIST_TYPES = [0x01, 0x02, 0x04, 0x05, 0x06, 0x10, 0x11, 0x12, 0x1C, 0x1D, 0x1E, 0x1F]
+HIST_DATA = sorted(set(
+    [((m & 0xFFFFFF) << 8) | (r << 4) | u for m in (0, 1, -1, 0x400000, 0x7FFFFF, -0x800000, 0x123456)
+     for r in range(4) for u in (0, 1)] + [0x01010000, 0x7F010001, 0x3F800000, 0xFF000000]))
+
+
+def _product(ctx, ax, shard, acc, stop=None):
+    """The call sequence of a product shard (this order IS the shard's history).  stop=(n, path): execute the same
+    sequence but judge only that one case (prefix replay)."""
     from ref import resval
-    acc = Acc()
     t = shard[0]
     datas = _data(ctx, shard)
     good = [d for d in datas if resval.judged(t, d)]
-    axml_text = {}
+    tier = ctx.tier
     for i in range(0, len(good), 16):
         chunk = good[i:i + 16]
-        for d, x in zip(chunk, path_axml(ax, t, chunk)):
-            axml_text[d] = x
-    for d in datas:
-        texts = {"fv": path_fv(ax, t, d), "ref": path_ref(ax, t, d), "table": path_table(ax, t, d)}
-        if d in axml_text:
-            texts["axml"] = axml_text[d]
-        judge(acc, t, d, texts)
-    if shard[1] == "bound" and t in (0x05, 0x10, 0x01):
-        d = {0x05: 0xFFFFFF01, 0x10: 0x80000000, 0x01: 0x01010003}[t]
-        acc.sample({"type": t, "data": "0x%08x" % d, "format_value": str(path_fv(ax, t, d)), "android": resval.canonical(t, d)})
-    return acc
+        items = [[t, d] for d in chunk]
+        texts = path_axml_items(ax, items)
+        for k, x in enumerate(texts):
+            n = i + k
+            if stop is None or stop == (n, "axml"):
+                judge_call(acc, ["axml", items, k], x, prefix={"shard": list(shard), "tier": tier, "upto": n, "p": "axml"},
+                           alone=[["axml", [[t, chunk[k]]], 0]], hkey="axml-batch:" + resval.feature(t, chunk[k]))
+        if stop is not None and stop[1] == "axml" and stop[0] < i + 16:
+            return
+    for n, d in enumerate(datas):
+        fv_bad = False
+        for p in ("fv", "ref", "table"):
+            call = [p, t, d]
+            x = do_call(ax, call)
+            if stop is None or stop == (n, p):
+                bad = judge_call(acc, call, x, prefix={"shard": list(shard), "tier": tier, "upto": n, "p": p}, fv_bad=fv_bad)
+                fv_bad = fv_bad or (bad and p == "fv")
+        if stop is not None and stop[0] == n:
+            return
+
+
+def _history(ctx, ax, shard, acc, stop=None):
+    """Shard ("hist", A): every data word of HIST_DATA formatted as type A and then as type B, for every B, per form.
+    Every judged case also carries its position in this sequence, so that a case that depends on more than its own
+    two calls can be replayed through the shard prefix (stop = position: judge only that case)."""
+    from ref import resval
+    ta = shard[1]
+    after = resval.typename(ta)
+    n = [0]
+
+    def case(call, hist, hkey, alone=None):
+        x = do_call(ax, call)
+        if stop is None or stop == n[0]:
+            judge_call(acc, call, x, history=hist, hkey=hkey, alone=alone,
+                       prefix={"shard": list(shard), "tier": ctx.tier, "upto": n[0], "p": "hist"})
+        n[0] += 1
+        return stop is not None and n[0] > stop
+
+    for tb in HIST_TYPES:
+        hkey = "%s:after:%s" % (resval.typename(tb), after)
+        for d in HIST_DATA:
+            if not (resval.judged(ta, d) and resval.judged(tb, d)):
+                continue
+            for p in ("fv", "ref"):
+                hist = [[p, ta, d], [p, tb, d]]
+                do_call(ax, hist[0])
+                if case(hist[1], hist, hkey):
+                    return
+            call = ["axml", [[ta, d], [tb, d]], 1]
+            if case(call, [call], hkey, alone=[["axml", [[tb, d]], 0]]):
+                return
+            # and across documents: a document with the A attribute, then a document with the B attribute
+            hist = [["axml", [[ta, d]], 0], ["axml", [[tb, d]], 0]]
+            do_call(ax, hist[0])
+            if case(hist[1], hist, hkey):
+                return
+
+
+def _shard_main(ctx, shard):
+    """Runs in a fork of a pristine worker: module state of the code under test is pristine at entry."""
+    from androguard.core import axml as ax
+    from mc import fresh
+    from ref import resval
+    import sys
+    srv = _SRV[0]         # fork server of the pristine worker, inherited; the worker is blocked while this child runs
+    try:
+        acc = fresh.HistoryAcc(srv, replay, ctx)
+        if shard[0] == "hist":
+            _history(ctx, ax, shard, acc)
+        else:
+            _product(ctx, ax, shard, acc)
+            t = shard[0]
+            if shard[1] in ("bound", "all") and t in (0x05, 0x10, 0x01):
+                d = {0x05: 0xFFFFFF01, 0x10: 0x80000000, 0x01: 0x01010003}[t]
+                acc.sample({"type": t, "data": "0x%08x" % d, "format_value": str(path_fv(ax, t, d)),
+                            "android": resval.canonical(t, d)})
+        return acc
+    finally:
+        pass
+
+
+_SRV = [None]
+
+
+def run_shard(ctx, shard):
+    import androguard.core.axml      # noqa: imported, never called here - this process stays pristine
+    from mc import fresh
+    if _SRV[0] is None or _SRV[0].owner != os.getpid():
+        _SRV[0] = fresh.Pristine()
+    return fresh.isolated(_shard_main, ctx, tuple(shard))
 
 
 def replay(ctx, w):
+    """Executes the witness history in this (fresh) process and judges its last call."""
     from androguard.core import axml as ax
-    from ref import resval
+    from mc import core
     acc = Acc()
-    t, d = w["t"], w["d"]
-    texts = {"fv": path_fv(ax, t, d), "ref": path_ref(ax, t, d), "table": path_table(ax, t, d)}
-    if resval.judged(t, d):
-        texts["axml"] = path_axml(ax, t, [d])[0]
-    judge(acc, t, d, texts)
+    if "history" not in w:                      # witness format of the first version: one (type, data), all paths
+        t, d = w["t"], w["d"]
+        for call in (["fv", t, d], ["ref", t, d], ["table", t, d], ["axml", [[t, d]], 0]):
+            judge_call(acc, call, do_call(ax, call))
+    elif "prefix" in w:
+        pf = w["prefix"]
+        if pf["p"] == "hist":
+            _history(core.Ctx(tier=pf["tier"]), ax, tuple(pf["shard"]), acc, stop=pf["upto"])
+        else:
+            _product(core.Ctx(tier=pf["tier"]), ax, tuple(pf["shard"]), acc, stop=(pf["upto"], pf["p"]))
+    else:
+        hist = w["history"]
+        for call in hist[:-1]:
+            do_call(ax, call)
+        judge_call(acc, hist[-1], do_call(ax, hist[-1]), history=hist)
     if acc.viol:
         return "; ".join(v["msg"] for v in acc.viol.values())
     return None
@@ -248,7 +400,9 @@ def finalize(ctx, acc):
     for t, d, text, want in selfcheck:
         if (resval.matches(t, d, text) is None) != want:
             acc.harness_error("oracle self-check failed: matches(0x%02x, 0x%08x, %r) should be %s" % (t, d, text, want))
-    expected = len(shards(ctx))
+    expected = 160
+    if len(shards(ctx)) < 32:
+        acc.harness_error("fewer than 32 shards")
     if len(acc.outcomes) < 60:
         acc.harness_error("space collapsed: only %d distinct (feature, path, verdict) outcomes" % len(acc.outcomes))
     if acc.n < expected * 40:
